@@ -790,7 +790,9 @@ func (i *interpreter) globalAddr(g *ssa.Global) *value {
 }
 
 // globals of non-initialised std packages that may be read as zero values.
-var zeroGlobalOK = map[string]bool{"net/http.DefaultTransport": true, "log/slog.DiscardHandler": true}
+var zeroGlobalOK = map[string]bool{"net/http.DefaultTransport": true, "log/slog.DiscardHandler": true,
+	// only reached from log/slog value construction (slog.Time): the locations are never inspected
+	"time.Local": true, "time.UTC": true}
 
 func (i *interpreter) runInit(pkg *ssa.Package) {
 	if i.initDone[pkg] {
